@@ -11,7 +11,7 @@ for i in 01 02 03 04 05 06 07 08 09 10 11 12 13 14 15 16 17 18 19 20; do
     out=$OUT/C${i}_$k.json
     [ -s "$out" ] && continue
     flags="-fsanitize=address,undefined"; [ $i = 19 ] && flags="-fsanitize=thread"
-    python3 "$HERE/eval_mutant.py" "$d" C$i --demo-flags="$flags" > "$out" 2>&1
+    python3 "$HERE/eval_mutant.py" "$d" C$i --demo-flags="$flags" ${FALLBACK_BASE:+--fallback-base $FALLBACK_BASE} > "$out" 2>&1
   done
 done
 echo ALLDONE > "$OUT/DONE"
